@@ -422,7 +422,11 @@ class KDataSplitMixin:
         )
         setattr(kheader.encoding_limits, other_label, Limits(min=0, max=n_other - 1, center=0))
         acq_info_other_split = repeat(
-            torch.linspace(0, n_other - 1, n_other), 'other-> other k2 k1', k2=kdat.shape[-3], k1=kdat.shape[-2]
+            torch.linspace(0, n_other - 1, n_other),
+            'other_split -> (other other_split) k2 k1',
+            other=self.data.shape[0],
+            k2=kdat.shape[-3],
+            k1=kdat.shape[-2],
         )
         setattr(kheader.acq_info.idx, other_label, acq_info_other_split)
         return type(self)(kheader, kdat, type(self.traj).from_tensor(ktraj))
@@ -539,11 +543,13 @@ def translate_split():
     if not (isinstance(v, ast.Call) and text(v.func) == 'repeat' and len(v.args) == 2 and text(v.args[0]) == text(vr.args[0])
             and [(k.arg, text(k.value)) for k in v.keywords] == [(k.arg, text(k.value)) for k in vr.keywords]):
         raise Unsupported(f'split: label tensor is `{text(v)[:100]}`')
+    # (since the repair of KF-04: 'other_split -> (other other_split) k2 k1' with other = the data's other size; the order inside the group
+    #  decides whether the label of output position o is o mod ns or o / nO, it must be the order used for data / trajectory / header)
     l_lhs, l_rhs = parse_pattern(str_const(v.args[1], 'label pattern'))
-    if l_lhs != ['other'] or sorted(map(str, l_rhs)) != ['k1', 'k2', 'other']:
+    if l_lhs != ['other_split'] or len(l_rhs) != 3 or not isinstance(l_rhs[0], tuple) or sorted(l_rhs[0]) != ['other', 'other_split'] \
+            or list(l_rhs[1:]) != ['k2', 'k1']:
         raise Unsupported(f'split: label pattern {l_lhs}->{l_rhs}')
-    lab_coord = ['o', 'a', 'b'][l_rhs.index('other')]
-    lab_shape_first = l_rhs.index('other') == 0
+    lab_coord = '(o mod ns)' if tuple(l_rhs[0]) == ('other', 'other_split') else '(o / nO k)'
     s = sa[idx['setattr(kheader.acq_info.idx']]
     if not (isinstance(s, ast.Expr) and isinstance(s.value, ast.Call) and text(s.value.func) == 'setattr' and len(s.value.args) == 3
             and not s.value.keywords and isinstance(s.value.args[1], ast.Name) and isinstance(s.value.args[2], ast.Name)
@@ -575,13 +581,13 @@ def translate_split():
             f'Definition gen_split_{d}_fd (k : fds) (sidx : list (list Z)) (o c a b j : Z) : Z := let ns := Z.of_nat (length sidx) in fd k {od} c {ad} {bd} j.',
             f'Definition gen_split_{d}_ft (k : fds) (sidx : list (list Z)) (m o a b j : Z) : Z := let ns := Z.of_nat (length sidx) in ft k m {ot} {at} {bt} j.',
             f'Definition gen_split_{d}_fi (k : fds) (sidx : list (list Z)) (r o a b : Z) : Z := let ns := Z.of_nat (length sidx) in fi k r {oi} {ai} {bi}.',
-            f'Definition gen_split_{d}_label (o a b : Z) : Z := {lab_coord}.',
+            f'Definition gen_split_{d}_label (k : fds) (sidx : list (list Z)) (o a b : Z) : Z := let ns := Z.of_nat (length sidx) in {lab_coord}.',
             f'Lemma gen_split_{d}_ok : forall sidx label k k\', split_{d} sidx label k = inr k\' ->',
             f'  nO k\' = nO k * Z.of_nat (length sidx) /\\ {"n1" if d == "k1" else "n2"} k\' = Z.of_nat (length (hd [] sidx)) /\\',
-            f'  fst (fst (ish k\' label)) = {"Z.of_nat (length sidx)" if lab_shape_first else "0"} /\\',
+            '  fst (fst (ish k\' label)) = nO k * Z.of_nat (length sidx) /\\',
             '  forall o c a b j m r,',
             f'    fd k\' o c a b j = gen_split_{d}_fd k sidx o c a b j /\\ ft k\' m o a b j = gen_split_{d}_ft k sidx m o a b j /\\',
-            f'    (r <> label -> fi k\' r o a b = gen_split_{d}_fi k sidx r o a b) /\\ fi k\' label o a b = gen_split_{d}_label o a b.',
+            f'    (r <> label -> fi k\' r o a b = gen_split_{d}_fi k sidx r o a b) /\\ fi k\' label o a b = gen_split_{d}_label k sidx o a b.',
             'Proof.',
             f'  intros sidx label k k\'. unfold split_{d}. destruct (1 <? _); [discriminate|]. destruct (_ || _); [discriminate|].',
             f'  destruct (_ <=? _); [discriminate|]. intros E. injection E as <-. cbn. rewrite Z.eqb_refl. cbn.',
